@@ -187,6 +187,144 @@ func bodyMustExpand(body string) bool {
 	return false
 }
 
+// hdShape: the sequence of expansions and escapes POSIX finds in an unquoted here-document body, by an
+// independent scan of the text: "E<c>" backslash before $ ` \ (escape of c), "P" parameter expansion,
+// "C" command substitution, "A" arithmetic expansion. A backslash before a newline is a continuation
+// (dropped); before anything else it is literal text. ok=false: a shape this scanner does not cover.
+func hdShape(body string) (shape []string, ok bool) {
+	rs := []rune(body)
+	isName := func(r rune) bool {
+		return r == '_' || r >= 'a' && r <= 'z' || r >= 'A' && r <= 'Z' || r >= '0' && r <= '9'
+	}
+	for i := 0; i < len(rs); i++ {
+		switch rs[i] {
+		case '\\':
+			if i+1 < len(rs) {
+				switch rs[i+1] {
+				case '$', '`', '\\':
+					shape = append(shape, "E"+string(rs[i+1]))
+					i++
+				case '\n':
+					i++
+				case '"':
+					return nil, false // go.sh treats \" as an escape here (a deviation of another property)
+				}
+			}
+		case '`':
+			j := i + 1
+			for j < len(rs) && rs[j] != '`' {
+				if rs[j] == '\\' {
+					j++
+				}
+				j++
+			}
+			if j >= len(rs) {
+				return nil, false
+			}
+			shape = append(shape, "C")
+			i = j
+		case '$':
+			if i+1 >= len(rs) {
+				continue
+			}
+			switch {
+			case rs[i+1] == '(':
+				kind := "C"
+				if i+2 < len(rs) && rs[i+2] == '(' {
+					kind = "A"
+				}
+				depth, j := 0, i+1
+				for ; j < len(rs); j++ {
+					if rs[j] == '(' {
+						depth++
+					} else if rs[j] == ')' {
+						depth--
+						if depth == 0 {
+							break
+						}
+					} else if rs[j] == '\'' || rs[j] == '"' || rs[j] == '\\' || rs[j] == '#' {
+						return nil, false
+					}
+				}
+				if j >= len(rs) {
+					return nil, false
+				}
+				shape = append(shape, kind)
+				i = j
+			case rs[i+1] == '{':
+				j := i + 2
+				for j < len(rs) && rs[j] != '}' {
+					if !isName(rs[j]) {
+						return nil, false
+					}
+					j++
+				}
+				if j >= len(rs) {
+					return nil, false
+				}
+				shape = append(shape, "P")
+				i = j
+			case isName(rs[i+1]) || strings.ContainsRune("@*#?-$!", rs[i+1]):
+				shape = append(shape, "P")
+				if isName(rs[i+1]) && !(rs[i+1] >= '0' && rs[i+1] <= '9') {
+					for i+1 < len(rs) && isName(rs[i+1]) {
+						i++
+					}
+				} else {
+					i++
+				}
+			}
+		}
+	}
+	return shape, true
+}
+
+// astShape: the same sequence read off the top-level parts of the body word.
+func astShape(w ast.Word) []string {
+	var shape []string
+	for _, p := range w {
+		switch p := p.(type) {
+		case *ast.Quote:
+			if p.Tok == `\` {
+				v, _ := unparseHD(p.Value, false)
+				if v == "\n" {
+					continue // line continuation
+				}
+				shape = append(shape, "E"+v)
+			} else {
+				shape = append(shape, "Q"+p.Tok)
+			}
+		case *ast.ParamExp:
+			shape = append(shape, "P")
+		case *ast.CmdSubst:
+			shape = append(shape, "C")
+		case *ast.ArithExp:
+			shape = append(shape, "A")
+		}
+	}
+	return shape
+}
+
+// dropContinuations removes backslash-newline pairs, escape-aware ("\\\\" followed by a newline is an escaped
+// backslash and a newline, not a continuation).
+func dropContinuations(s string) string {
+	var b strings.Builder
+	for i := 0; i < len(s); i++ {
+		if s[i] == '\\' && i+1 < len(s) {
+			if s[i+1] == '\n' {
+				i++
+				continue
+			}
+			b.WriteByte(s[i])
+			b.WriteByte(s[i+1])
+			i++
+			continue
+		}
+		b.WriteByte(s[i])
+	}
+	return b.String()
+}
+
 func hasExpansion(w ast.Word) bool {
 	for _, p := range w {
 		if _, ok := p.(*ast.Lit); !ok {
@@ -248,12 +386,20 @@ func (c08) Judge(c *Case, obs []*Obs) []Finding {
 			wantBody := want.Body
 			if !want.Quoted {
 				// backslash-newline is a line continuation in an expanding here-document: compare modulo its removal
-				wantBody = strings.ReplaceAll(wantBody, "\\\n", "")
-				body = strings.ReplaceAll(body, "\\\n", "")
+				wantBody = dropContinuations(wantBody)
+				body = dropContinuations(body)
 			}
 			if body != wantBody {
 				add(Finding{Class: "heredoc-body", Obs: []int{oi}, Detail: fmt.Sprintf("here-document %d (%s %s): body %q, expected %q", i, want.Op, want.Delim, shortStr(body, 200), shortStr(want.Body, 200))})
 				break
+			}
+			if !want.Quoted {
+				if ws, ok := hdShape(want.Body); ok {
+					if gs := astShape(r.Heredoc); strings.Join(gs, " ") != strings.Join(ws, " ") {
+						add(Finding{Class: "heredoc-expansion-shape", Obs: []int{oi}, Detail: fmt.Sprintf("here-document %d: the body %q holds the expansions/escapes %v, the tree has %v", i, shortStr(want.Body, 120), ws, gs)})
+						break
+					}
+				}
 			}
 			if want.Quoted && hasExpansion(r.Heredoc) {
 				add(Finding{Class: "heredoc-expanded-though-quoted", Obs: []int{oi}, Detail: fmt.Sprintf("here-document %d: delimiter was quoted but the body was scanned for expansions", i)})
